@@ -116,8 +116,14 @@ package dawn
 //@ func (dawn.Target).Project
 //@   pure
 //@   ensures result != nil
+// A target's label is a function of the target.
+//@ specfn tlabel(value) ref
+//@ smt <<<
+//@ (declare-fun tlabel (Iface) Ref)
+//@ >>>
 //@ func (dawn.Target).Label
 //@   pure
+//@   ensures result == tlabel(this)
 //@ func (dawn.Target).Doc
 //@   pure
 //@ func (dawn.Target).info
@@ -263,3 +269,40 @@ package dawn
 //@   ensures labelled: result.1 == nil ==> (result.0 != nil && result.0.Kind == "source" && result.0.Project == "")
 //@   ensures name-plain: result.1 == nil ==> (forall i: int :: 0 <= i && i < len(result.0.Name) ==> result.0.Name[i] != 47)
 //@   modifies heap
+
+// ---------------------------------------------------------------- C14: garbage collection
+// Mark: markPath(p) marks p and keeps the marked set closed under "parent" up to (excluding) the
+// project root; GC marks the record path of every target and source that exists, the index and the
+// temp directory, all before the sweep starts, and sweeps exactly the build-state directory.
+// Sweep: only unmarked paths are removed.
+// Hence (induction over the parent chain, DESIGN.md C14): no marked path and no ancestor of a
+// marked path below the root is removed, so every live record survives byte for byte.
+
+// The record path of a label is a function of the project and the label.
+//@ func (*dawn.Project).targetInfoPath
+//@   trusted
+//@   ensures result == tipath(proj, l)
+
+//@ func (*dawn.Project).GC$1
+//@   requires paths != nil && proj != nil
+//@   ensures  marks-self: has(paths, p)
+//@   ensures  keeps: forall q: string :: old(has(paths, q)) ==> has(paths, q)
+//@   ensures  parent-closed: forall q: string :: (has(paths, q) && !old(has(paths, q))) ==> (has(paths, pdir(q)) || pdir(q) == proj.root || pdir(q) == q)
+//@   modifies mapof(paths)
+//@   loop 0: invariant paths != nil && proj != nil && paths == old(paths)
+//@   loop 0: invariant keeps: forall q: string :: old(has(paths, q)) ==> has(paths, q)
+//@   loop 0: invariant marked-self: p == old(p) || has(paths, old(p))
+//@   loop 0: invariant parent-closed: forall q: string :: (has(paths, q) && !old(has(paths, q))) ==> (has(paths, pdir(q)) || pdir(q) == p || pdir(q) == proj.root || pdir(q) == q)
+
+//@ func (*dawn.Project).GC$2
+//@   requires paths != nil
+//@   callsite RemoveAll: assert only-unmarked: !has(paths, path)
+
+//@ func (*dawn.Project).GC
+//@   requires proj != nil
+//@   requires targets-nonnil: forall k: string :: has(proj.targets, k) ==> proj.targets[k] != nil
+//@   callsite WalkDir: assert sweeps-build-state: $0 == proj.work
+//@   callsite WalkDir: assert all-live-records-marked: forall k: string :: has(proj.targets, k) ==> has(paths, tipath(proj, tlabel(proj.targets[k].target)))
+//@   modifies heap
+//@   loop 0: invariant paths != nil && proj != nil
+//@   loop 0: invariant visited-marked: forall k: string :: seen(k) ==> has(paths, tipath(proj, tlabel(proj.targets[k].target)))
